@@ -97,6 +97,36 @@ func vReadEndpoints(s *Server) []vEndpoint {
 			err := cfg.List(&structs.ConfigEntryQuery{Datacenter: dc, Kind: structs.ServiceDefaults, QueryOptions: qo}, &r)
 			return r.Entries, r.Index, err
 		}},
+		{"prepared-query-list", func(qo structs.QueryOptions) (any, uint64, error) {
+			var r structs.IndexedPreparedQueries
+			err := (&PreparedQuery{srv: s, logger: lg}).List(&structs.DCSpecificRequest{Datacenter: dc, QueryOptions: qo}, &r)
+			return r.Queries, r.Index, err
+		}},
+		{"intention-list", func(qo structs.QueryOptions) (any, uint64, error) {
+			var r structs.IndexedIntentions
+			err := (&Intention{srv: s, logger: lg}).List(&structs.IntentionListRequest{Datacenter: dc, QueryOptions: qo}, &r)
+			return r.Intentions, r.Index, err
+		}},
+		{"health-service-checks", func(qo structs.QueryOptions) (any, uint64, error) {
+			var r structs.IndexedHealthChecks
+			err := health.ServiceChecks(&structs.ServiceSpecificRequest{Datacenter: dc, ServiceName: "web", QueryOptions: qo}, &r)
+			return r.HealthChecks, r.Index, err
+		}},
+		{"coordinate-node", func(qo structs.QueryOptions) (any, uint64, error) {
+			var r structs.IndexedCoordinates
+			err := coord.Node(&structs.NodeSpecificRequest{Datacenter: dc, Node: "n1", QueryOptions: qo}, &r)
+			return r.Coordinates, r.Index, err
+		}},
+		{"catalog-node-service-list", func(qo structs.QueryOptions) (any, uint64, error) {
+			var r structs.IndexedNodeServiceList
+			err := cat.NodeServiceList(&structs.NodeSpecificRequest{Datacenter: dc, Node: "n1", QueryOptions: qo}, &r)
+			return r.NodeServices, r.Index, err
+		}},
+		{"config-entry-list-all", func(qo structs.QueryOptions) (any, uint64, error) {
+			var r structs.IndexedGenericConfigEntries
+			err := cfg.ListAll(&structs.ConfigEntryListAllRequest{Datacenter: dc, Kinds: structs.AllConfigEntryKinds, QueryOptions: qo}, &r)
+			return r.Entries, r.Index, err
+		}},
 		{"config-entry-get", func(qo structs.QueryOptions) (any, uint64, error) {
 			var r structs.ConfigEntryResponse
 			err := cfg.Get(&structs.ConfigEntryQuery{Datacenter: dc, Kind: structs.ServiceDefaults, Name: "web", QueryOptions: qo}, &r)
@@ -146,6 +176,16 @@ func vCatalogWrites(s *Server) []vWrite {
 		}},
 		{"config-entry-delete", func(idx uint64) {
 			_ = store.DeleteConfigEntry(idx, structs.ServiceDefaults, "web", nil)
+		}},
+		{"prepared-query-set", func(idx uint64) {
+			_ = store.PreparedQuerySet(idx, &structs.PreparedQuery{ID: "a0000000-0000-0000-0000-0000000000f1", Name: "q1", Service: structs.ServiceQuery{Service: "web"}})
+		}},
+		{"intention-set", func(idx uint64) {
+			e := &structs.ServiceIntentionsConfigEntry{Kind: structs.ServiceIntentions, Name: "web",
+				Sources: []*structs.SourceIntention{{Name: "api", Action: structs.IntentionActionAllow}}}
+			if e.Normalize() == nil && e.Validate() == nil {
+				_ = store.EnsureConfigEntry(idx, e)
+			}
 		}},
 		{"kv-set", func(idx uint64) { must(store.KVSSet(idx, &structs.DirEntry{Key: "k", Value: []byte("v")})) }},
 	}
